@@ -40,6 +40,14 @@ NOTES = {
  "C16-d": "assignment into an already queried object (mode 4 of family `range`) was added after reading the agent's summary, before the first run",
  "C19-d": "missed at first (SimTcp, like QTcpSocket, hands out nothing after close()); caught after family `sockl` (a transport whose reading side lingers after close())",
  "C20-d": "missed at first (every exchange finished within milliseconds); caught after one long-lived exchange (client pauses 11 s / 31 s in the middle of the body) over TLS and over plain TCP",
+ "C01-e": "NUL bytes inside and around the tokens of the request line were added after reading the agent's summary, before the first run",
+ "C02-e": "first run: `no-failing-input-found` (the C02 statement left schedules with a peer half-close or reset out of its domain); after the domain was widened and the generator put the FIN before the final drain: concrete replay",
+ "C03-e": "body blocks that are no C strings (NUL bytes) as first write were added after reading the agent's summary, before the first run",
+ "C04-e": "rejected heads longer than 16 KiB in one piece were added after reading the agent's summary, before the first run",
+ "C05-e": "installing / replacing the root handler after the connection was accepted was added to the harness after reading the agent's summary, before the first run",
+ "C06-e": "chains of 17..30 nested handlers were added after reading the agent's summary, before the first run (the model's tree decoder needed more fuel)",
+ "C08-e": "file requests that declare a body (Content-Length) were added after reading the agent's summary, before the first run",
+ "C10-e": "missed by C10 at first (the case existed in C20's generator only); caught after C10 also runs 'TLS server destroyed while handshakes are pending'",
  "C06-b": "caught on the first run, thanks to the refusal styles (silent / own fragment without close) added to model, spec and harness beforehand",
 }
 rows = []
